@@ -53,6 +53,10 @@ fn main() {
     match args[1].as_str() {
         "find" => {
             let ob = args.get(3).map(|s| s.as_str()).unwrap_or("");
+            // --skip <text>: failing cases whose message contains <text> are recorded known findings, not new witnesses
+            let mut skips: Vec<String> = vec![];
+            let mut i = 4;
+            while i + 1 < args.len() { if args[i] == "--skip" { skips.push(args[i + 1].clone()); } i += 2; }
             let cases = (fam.cases)(ob);
             let n = cases.len();
             for c in cases {
@@ -62,6 +66,7 @@ fn main() {
                     Ok(Some(m)) => m,
                     Err(_) => "panic".to_string(),
                 };
+                if skips.iter().any(|s| msg.contains(s.as_str())) { println!("KNOWN {}", c); continue; }
                 println!("FOUND {}", c);
                 println!("{}", msg);
                 exit(1);
